@@ -75,3 +75,79 @@ Theorem C09_cot_plane :
 Proof. intros T Op C dr ph o ri Ho Hri. exact (cot_nth Op C dr ph o ri Ho Hri). Qed.
 Print Assumptions C09_cot_plane.
 
+
+(* the same for EITHER colour mode (combine_colour: one magnitude over the three colour channels, cotangent broadcast over them; the input then
+   has 3 channels): the whole backward pass of the first-order layer is the adjoint of the phase-weighted linearisation *)
+Theorem C09_scat_j1_vjp_colour :
+  forall (T:Type) (Op:Ops T) (Rth:RingOk Op) (X:XOps T)
+  (b:T) (L0 L1:Z) (h0 h1:Z->T), 1 <= L0 /\ L0 mod 2 = 1 -> 1 <= L1 /\ L1 mod 2 = 1 -> Symmetric L0 h0 -> Symmetric L1 h1 ->
+  (forall a c:T, rmul Op (radd Op (r1 Op) (r1 Op)) a = rmul Op (radd Op (r1 Op) (r1 Op)) c -> a = c) ->
+  forall (colour:bool) (x h dZ:@ten T), (colour = true -> tC x = 3) -> 2 <= tH x -> tH x mod 2 = 0 -> 2 <= tW x -> tW x mod 2 = 0 -> 0 < tC x ->
+  tN h = tN x -> tC h = tC x -> tH h = tH x -> tW h = tW x ->
+  tN dZ = tN x -> tH dZ = tH x / 2 -> tW dZ = tW x / 2 ->
+  let C := tC x in let H2 := tH x / 2 in let W2 := tW x / 2 in
+  let nl := if colour then 3 else C in
+  let dYl := force Op (t_chmap nl (fun c => c) dZ) in
+  let dr := force Op (t_chmap (tC dZ - nl) (fun c => nl + c) dZ) in
+  is_ok (fwd_j1 Op (xs_ X) x L0 h0 L1 h1 false M_SYMM) (fun rx =>
+  let cot := cot_planes Op colour C dr (phases Op X b colour C (snd rx)) in
+  is_ok (fwd_j1 Op (xs_ X) h L0 h0 L1 h1 false M_SYMM) (fun rh =>
+  is_ok (scat_j1_bwd Op X b false colour x dZ L0 h0 L1 h1 L1 h1 M_SYMM) (fun dx =>
+    shaped x (tH x) (tW x) dx /\
+    forall n c, 0 <= c < C ->
+      radd Op (radd Op (radd Op (dot2 Op H2 W2 (avgpool2 Op X (fst rh)) dYl n c)
+        (radd Op (radd Op (radd Op (dot2 Op H2 W2 (pl Op (snd rh) 0 0) (pl Op cot 0 0) n c) (dot2 Op H2 W2 (pl Op (snd rh) 0 1) (pl Op cot 0 1) n c))
+                          (dot2 Op H2 W2 (pl Op (snd rh) 5 0) (pl Op cot 5 0) n c)) (dot2 Op H2 W2 (pl Op (snd rh) 5 1) (pl Op cot 5 1) n c)))
+        (radd Op (radd Op (radd Op (dot2 Op H2 W2 (pl Op (snd rh) 2 0) (pl Op cot 2 0) n c) (dot2 Op H2 W2 (pl Op (snd rh) 2 1) (pl Op cot 2 1) n c))
+                          (dot2 Op H2 W2 (pl Op (snd rh) 3 0) (pl Op cot 3 0) n c)) (dot2 Op H2 W2 (pl Op (snd rh) 3 1) (pl Op cot 3 1) n c)))
+        (radd Op (radd Op (radd Op (dot2 Op H2 W2 (pl Op (snd rh) 1 0) (pl Op cot 1 0) n c) (dot2 Op H2 W2 (pl Op (snd rh) 1 1) (pl Op cot 1 1) n c))
+                          (dot2 Op H2 W2 (pl Op (snd rh) 4 0) (pl Op cot 4 0) n c)) (dot2 Op H2 W2 (pl Op (snd rh) 4 1) (pl Op cot 4 1) n c))
+      = dot2 Op (tH x) (tW x) h dx n c))).
+Proof. exact @scat_j1_vjp_gen. Qed.
+Print Assumptions C09_scat_j1_vjp_colour.
+
+(* ---- the SECOND-ORDER layer (greyscale, plain family) ----
+   forward at x:  (s0,p1) = J1(x);  s1 = |p1|;  (s0b,p2) = J2(s0);  (l3,p3) = J1(s1)  -> output [avgpool s0b | avgpool l3 | |p2| | |p3|]
+   linearisation in direction h with the phases saved at x:  (s0',p1') = J1(h);  s1' = linmag(phases p1; p1');  (s0b',p2') = J2(s0');  (l3',p3') = J1(s1').
+   dot12 pairs twelve planes with twelve cotangent planes; cot2/cot3 are dZ times the saved phases (C09_cot_plane).  The forward values enter as
+   equations (the level functions are total on these sizes: C03/C04 level theorems); the statement is about the backward pass. *)
+From PW Require Import Spec.Line Base.Sum Proofs.ScatVJP2.
+Theorem C09_scat_j2_vjp :
+  forall (T:Type) (Op:Ops T) (Rth:RingOk Op) (X:XOps T) (b:T) (L0 L1:Z) (h0 h1:Z->T),
+  1 <= L0 /\ L0 mod 2 = 1 -> 1 <= L1 /\ L1 mod 2 = 1 -> Symmetric L0 h0 -> Symmetric L1 h1 ->
+  forall (L:Z) (H0A H0B H1A H1B:Z->T), 2 <= L /\ L mod 2 = 0 ->
+  (forall j, 0 <= j < L -> H0B j = H0A (L-1-j)) -> (forall j, 0 <= j < L -> H1B j = H1A (L-1-j)) ->
+  (forall a c:T, rmul Op (radd Op (r1 Op) (r1 Op)) a = rmul Op (radd Op (r1 Op) (r1 Op)) c -> a = c) ->
+  forall (x h dZ s0 s0b l3 s0' s0b' l3':@ten T) (p1 p2 p3 p1' p2' p3':list (@ten T)),
+  8 <= tH x -> tH x mod 8 = 0 -> 8 <= tW x -> tW x mod 8 = 0 -> 0 < tC x ->
+  tN h = tN x -> tC h = tC x -> tH h = tH x -> tW h = tW x ->
+  tN dZ = tN x -> tC dZ = 49 * tC x -> tH dZ = tH x / 4 -> tW dZ = tW x / 4 ->
+  fwd_j1 Op (xs_ X) x L0 h0 L1 h1 false M_SYMM = Ok (s0, p1) ->
+  fwd_j2plus Op (xs_ X) s0 L (rev_filt L H0B) (rev_filt L H0A) L (rev_filt L H1B) (rev_filt L H1A) false = Ok (s0b, p2) ->
+  fwd_j1 Op (xs_ X) (force Op (mags Op X b (tC x) p1)) L0 h0 L1 h1 false M_SYMM = Ok (l3, p3) ->
+  fwd_j1 Op (xs_ X) h L0 h0 L1 h1 false M_SYMM = Ok (s0', p1') ->
+  fwd_j2plus Op (xs_ X) s0' L (rev_filt L H0B) (rev_filt L H0A) L (rev_filt L H1B) (rev_filt L H1A) false = Ok (s0b', p2') ->
+  fwd_j1 Op (xs_ X) (linmag Op (tC x) (phases Op X b false (tC x) p1) p1') L0 h0 L1 h1 false M_SYMM = Ok (l3', p3') ->
+  let C := tC x in let H4 := tH x / 4 in let W4 := tW x / 4 in
+  let ds0 := force Op (t_chmap C (fun c => c) dZ) in
+  let ds1_j1 := force Op (t_chmap (6 * C) (fun c => C + c) dZ) in
+  let ds1_j2 := force Op (t_chmap (6 * C) (fun c => C + 6 * C + c) dZ) in
+  let ds2_j1 := force Op (t_chmap (6 * (6 * C)) (fun c => C + 2 * (6 * C) + c) dZ) in
+  let cot2 := cot_planes Op false C ds1_j2 (phases Op X b false C p2) in
+  let cot3 := cot_planes Op false (6 * C) ds2_j1 (phases Op X b false (6 * C) p3) in
+  is_ok (scat_j2_bwd Op X b false false x dZ L0 h0 L1 h1 L1 h1 L (rev_filt L H0B) (rev_filt L H0A) L (rev_filt L H1B) (rev_filt L H1A) L (rev_filt L H1B) (rev_filt L H1A) M_SYMM) (fun dx =>
+    shaped x (tH x) (tW x) dx /\
+    forall n c, 0 <= c < C ->
+      radd Op (radd Op (dot2 Op H4 W4 (avgpool2 Op X s0b') ds0 n c) (dot12 Op H4 W4 p2' cot2 n c))
+        (sumZ Op 0 6 (fun o => radd Op (dot2 Op H4 W4 (avgpool2 Op X l3') ds1_j1 n (o*C + c)) (dot12 Op H4 W4 p3' cot3 n (o*C + c))))
+      = dot2 Op (tH x) (tW x) h dx n c).
+Proof. exact @scat_j2_vjp. Qed.
+Print Assumptions C09_scat_j2_vjp.
+(* what linmag is: the directional derivative of the magnitudes, phase-weighted (C09_smag_dx/dy give the phases as the partial derivatives) *)
+Theorem C09_linmag_entry :
+  forall (T:Type) (Op:Ops T) (C:Z) (ph p':list (@ten T)) n q i j,
+  tf (linmag Op C ph p') n q i j
+  = radd Op (rmul Op (tf (pl Op ph (q / C) 0) n (q mod C) i j) (tf (pl Op p' (q / C) 0) n (q mod C) i j))
+            (rmul Op (tf (pl Op ph (q / C) 1) n (q mod C) i j) (tf (pl Op p' (q / C) 1) n (q mod C) i j)).
+Proof. intros. reflexivity. Qed.
+Print Assumptions C09_linmag_entry.
